@@ -100,6 +100,8 @@ pub fn tok_to_char(s: &str) -> char {
         "E" => '\u{e9}',
         "W" => '\u{1D11E}',
         // multi-code-point grapheme clusters (kind "graph"; elsewhere they are just unusual characters)
+        // U+0161: outside Latin-1, low byte 0x61 = 'a' (truncating casts confuse it with 'a')
+        "Z" => '\u{161}',
         "G" => '\u{E000}',
         "U" => '\u{E001}',
         // C14: whitespace and line terminators have token names
@@ -120,6 +122,7 @@ pub fn char_to_tok(c: char) -> String {
     match c {
         '\u{e9}' => "E".to_string(),
         '\u{1D11E}' => "W".to_string(),
+        '\u{161}' => "Z".to_string(),
         '\u{E000}' => "G".to_string(),
         '\u{E001}' => "U".to_string(),
         ' ' => "S".to_string(),
